@@ -132,7 +132,7 @@ impl Property for P {
     fn cases(tier: Tier) -> u64 {
         match tier {
             Tier::Quick => 30_000,
-            Tier::Thorough => 300_000,
+            Tier::Thorough => 1_000_000,
         }
     }
     fn chunk(_t: Tier) -> u64 {
